@@ -76,7 +76,7 @@ static void gen_header_for(vh_rng_t * rng, const char * pat, char * out, size_t 
         if (allow_miss && vh_chance(rng, 1, 25)) { size_t l = strlen(kw); if (vh_chance(rng, 1, 2) && l > 1) kw[l - 1] = 0; else { kw[l] = 'Q'; kw[l + 1] = 0; } }
         if (lower) for (k = 0; kw[k]; k++) kw[k] = (char) tolower((unsigned char) kw[k]);
         n += (size_t) snprintf(out + n, cap - n, "%s%s", first ? "" : ":", kw);
-        if ((s->suffix && vh_chance(rng, 2, 3)) || (allow_miss && !s->suffix && vh_chance(rng, 1, 30))) n += (size_t) snprintf(out + n, cap - n, "%u", (unsigned) vh_below(rng, 130));
+        if ((s->suffix && vh_chance(rng, 2, 3)) || (allow_miss && !s->suffix && vh_chance(rng, 1, 30))) n += (size_t) snprintf(out + n, cap - n, vh_chance(rng, 1, 6) ? "%014u" : "%u", (unsigned) vh_below(rng, 130)); /* zero padding is legal and unlimited */
         first = 0;
     }
     if (first) n += (size_t) snprintf(out + n, cap - n, "%s", p.s[p.n - 1].sht); /* all optional keywords skipped: write the last one */
